@@ -125,6 +125,7 @@ def convs(xs, num):
     return [conv(x, num) for x in xs]
 
 
+VARY = None       # a random.Random: when set, build() varies the length / sign of direction and normal vectors
 PERTURB = {}      # {homogeneous spec point (tuple): (axis, delta)}: symbolic perturbations of C19 made concrete
 
 
@@ -148,6 +149,9 @@ def build(o, pose=IDENT, num="float", rep=None):
     rep = rep or {}
     form = rep.get("form")
     sc = rep.get("scale", 1)
+    if "scale" not in rep and VARY is not None and k in ("Line", "Plane", "HalfLine"):
+        # the same point set with a rescaled (for Line / Plane also negated) direction or normal vector
+        sc = VARY.choice((1, 1, 2, 3, -1, -2) if k != "HalfLine" else (1, 1, 2, 3))
     if k == "None":
         return None
     if k == "Point":
